@@ -272,7 +272,10 @@ def trace_origin(
 
                 if node.module in constants.PYTHON_311_STDLIB:
                     # Logic copied from _get_exports_list() in os.py from python3.12.0b2
-                    module = __import__(node.module)
+                    try:
+                        module = __import__(node.module)
+                    except ImportError:  # Not all of the stdlib exists on all platforms and versions
+                        continue
                     exports = getattr(
                         module, "__all__", [x for x in dir(module) if not x.startswith("_")]
                     )
@@ -289,7 +292,10 @@ def trace_origin(
                 # we might end up executing code that we shouldn't if we try that. So
                 # only builtins are imported this way.
                 if origin in {"frozen", "built-in"}:
-                    module = __import__(node.module)
+                    try:
+                        module = __import__(node.module)
+                    except ImportError:
+                        continue
                     exports = getattr(
                         module, "__all__", [x for x in dir(module) if not x.startswith("_")]
                     )
